@@ -1,0 +1,15 @@
+//go:build verif
+
+// Contracts for package maincmd, checked by /verif/govc. Comments only.
+
+package maincmd
+
+// C05: a receiving client only creates/opens paths[0] (its destination) and
+//      then works through the root opened on it. When the client is the
+//      sender it reads its sources (any path the user named).
+//@ func maincmd.ClientRun
+//@   allows[C05] pathwrite(p) if opts.am_sender == 0 && p == paths[0]
+//@   allows[C05] pathread(p) if opts.am_sender != 0 || p == paths[0]
+//@   allows[C05] fswrite(h) if opts.am_sender == 0 && rootPath(h) == paths[0]
+//@   allows[C05] fsread(h) if opts.am_sender != 0 || rootPath(h) == paths[0]
+//@   allows[C05] srcread(h) if opts.am_sender != 0
